@@ -95,7 +95,9 @@ def _replay_inproc(fn, site, inputs):
         except PathAbort:
             return False, "aborted"
         except Exception as e:
-            ok = site == f"unexpected:{type(e).__name__}"
+            # an exception the harness does not expect is a violation whatever its type (the symbolic and
+            # the concrete run may trip over different statements of the same broken code)
+            ok = site.startswith("unexpected:")
             return ok, f"raised {e!r}"
         return False, "all checks passed"
     finally:
